@@ -15,7 +15,7 @@ import (
 )
 
 type termDef struct {
-	kind string // "divq", "divr", "wrapy", "wrapk"
+	kind string // "divq", "divr", "wrapy", "wrapk", "copy"
 	of   *Term
 	c    *big.Int // divisor / modulus
 	lo   *big.Int // wrap: low end of the target range
@@ -90,6 +90,8 @@ func evalTerm1(t *Term, m map[string]*big.Int) *big.Int {
 			case "wrapk":
 				q, _ := floorDivMod(new(big.Int).Sub(x, t.def.lo), t.def.c)
 				v = q
+			case "copy":
+				v = x
 			}
 		case t.isBool:
 			v = big0
